@@ -273,6 +273,7 @@ func (w *World) start() {
 	}
 	w.NodeOpt = opts
 	n := NewNode("primary", opts)
+	n.Primary = true
 	w.Node = n
 	spec := w.GenesisSpec()
 	state := n.BuildGenesis(spec)
@@ -470,6 +471,10 @@ func (w *World) execBlock(bp *BlockPlan) bool {
 			crash = true
 		}
 	}
+	if !w.Replay && bp.Phase != "genesis" {
+		// recorded before it executes: a block whose execution panics is part of the schedule
+		w.Sched.Blocks = append(w.Sched.Blocks, bp)
+	}
 	for _, m := range w.Mods {
 		m.BeforeBlock(w, bp)
 	}
@@ -597,9 +602,6 @@ func (w *World) execBlock(bp *BlockPlan) bool {
 				h.OnFault(w, f)
 			}
 		}
-	}
-	if !w.Replay && bp.Phase != "genesis" {
-		w.Sched.Blocks = append(w.Sched.Blocks, bp)
 	}
 	return true
 }
